@@ -31,20 +31,24 @@ Proof. vm_compute. reflexivity. Qed.
 Lemma sim_skipStringFast : sim_check skipStringFast_raw skipstring_spec [] = true.
 Proof. vm_compute. reflexivity. Qed.
 
-(** the number of related pairs per machine (documentation: impl states x spec partners) *)
-Example sim_pair_counts :
-  map (fun p => length p)
-      [sim_pairs skipValue_raw skip_spec []; sim_pairs skipValueFast_raw skipfast_spec [];
-       sim_pairs handleArrayValues_raw harr_spec []; sim_pairs handleObjectValues_raw hobj_spec []]
-  = map (fun rm => (length (rm_rows rm)))
-      [skipValue_raw; skipValueFast_raw; handleArrayValues_raw; handleObjectValues_raw].
-Proof. vm_compute. reflexivity. Qed.
+(** the checker does reject: a machine against the wrong specification *)
+Example sim_rejects :
+  sim_check readNull_raw bool_spec [] = false /\ sim_check skipValueFast_raw skip_spec [] = false.
+Proof. vm_compute. auto. Qed.
 
-(** the observational equalities, for all inputs, buffers and handlers (given TieWf's wf_check) *)
-Section Transport.
-  Variable wf : Machine.rawmachine -> bool.
-  Theorem skipValue_is_spec : Wf.wf_check skipValue_raw = true ->
-    forall md data h stack dst, len data <= maxint ->
-    Safety.obs (prun md (of_raw skipValue_raw) data h stack dst) = Safety.obs (prun md skip_spec data h stack dst).
-  Proof. intros W. apply (sim_sound _ _ [] sim_skipValue W). Qed.
-End Transport.
+(** the observational equalities, for all inputs, buffers and handlers; the hypothesis is
+    TieWf's lemma of the same machine (kept as a hypothesis so that this file depends on Gen only) *)
+Ltac transport L := intros W md data h stack dst LE; exact (sim_sound _ _ [] L W md data h stack dst LE).
+Notation same_obs rm mS :=
+  (Wf.wf_check rm = true -> forall md data h stack dst, len data <= maxint ->
+   Safety.obs (prun md (of_raw rm) data h stack dst) = Safety.obs (prun md mS data h stack dst)).
+Theorem skipValue_is_spec : same_obs skipValue_raw skip_spec. Proof. transport sim_skipValue. Qed.
+Theorem skipValueFast_is_spec : same_obs skipValueFast_raw skipfast_spec. Proof. transport sim_skipValueFast. Qed.
+Theorem handleArrayValues_is_spec : same_obs handleArrayValues_raw harr_spec. Proof. transport sim_handleArrayValues. Qed.
+Theorem handleObjectValues_is_spec : same_obs handleObjectValues_raw hobj_spec. Proof. transport sim_handleObjectValues. Qed.
+Theorem readNull_is_spec : same_obs readNull_raw null_spec. Proof. transport sim_readNull. Qed.
+Theorem readBool_is_spec : same_obs readBool_raw bool_spec. Proof. transport sim_readBool. Qed.
+Theorem appendRemainderOfString_is_spec : same_obs appendRemainderOfString_raw append_spec. Proof. transport sim_appendRemainderOfString. Qed.
+Theorem unescapeStringContent_is_spec : same_obs unescapeStringContent_raw unescape_spec. Proof. transport sim_unescapeStringContent. Qed.
+Print Assumptions skipValue_is_spec.
+Print Assumptions handleObjectValues_is_spec.
